@@ -97,7 +97,7 @@ def is_pure_event(e):
     if c is None:
         return False
     nm = c["name"]
-    if nm in IMPURE_NAMES:
+    if nm in IMPURE_NAMES and not (nm == "finalize" and (c.get("def") or "").startswith("crc::")):
         return False
     if nm in HOF_NAMES and not _closure_args_pure(e):
         return False
@@ -112,6 +112,8 @@ def is_pure_event(e):
         return True
     if d.startswith(("crc::", "cobs::")) and nm in ("digest", "digest_with_initial", "max_encoding_length", "new"):
         return True
+    if d.startswith("crc::") and nm == "finalize":
+        return True          # Digest::finalize(self) computes the checksum value; it has no effect
     return False
 
 
@@ -310,7 +312,11 @@ class CT:
         if k == "I":
             return "%s[%s]" % (self.loc(l[1]), self.t(l[2]))
         if k == "S":
+            if l[1][0] == "A1":
+                return "[%s]" % self.loc(l[1][1])        # one-element view of a place
             return "%s[%s..%s]" % (self.loc(l[1]), self.t(l[2]), self.t(l[3]))
+        if k == "A1":
+            return self.loc(l[1])
         return repr(l)
 
     # -- terms
